@@ -193,6 +193,9 @@ type allocHook struct{ reqs []int }
 
 func (h *allocHook) At(point string, obj any, a, b int64) {
 	if point == "wire.alloc" {
+		if a > 1<<30 {
+			a = 1 << 30 // TLC integers are 32 bit; anything this large is far beyond every frame limit
+		}
 		h.reqs = append(h.reqs, int(a))
 	}
 }
